@@ -18,7 +18,7 @@ Tok(n) == IF n <= 64 THEN [i \in 1..n |-> ((i - 1) * 131) % 256] ELSE <<0 - 2, n
 Sg(i) == [kind |-> "sym", name |-> ("k" \o ToString(i)), alg |-> 0 - 7, fault |-> ""]
 Vf(i) == [kind |-> "sym", name |-> ("k" \o ToString(i)), alg |-> 0 - 7, fault |-> ""]
 X(en) == IF en = 0 THEN [ext |-> <<>>, extnil |-> TRUE, extempty |-> FALSE] ELSE [ext |-> Tok(en), extnil |-> FALSE, extempty |-> FALSE]
-BodyProt == <<67, 161, 3, 0>>
+BodyProt == <<88, 3, 161, 3, 0>>         \* h'a10300' with a non-minimal length prefix: must be normalised inside the Sig_structure
 
 Prog(kind, P, U, pn, en) ==
   CASE kind \in {"sign1", "sign1u"} ->
